@@ -120,8 +120,14 @@ def generate(repo):
                 if isinstance(st, ast.Assign) and isinstance(st.targets[0], ast.Name) \
                         and st.targets[0].id.endswith("__handler_table"):
                     gss_types = _dict_keys(st.value, env, "GssapiWithMicAuthHandler.__handler_table")
+            # or (after fixes/C14-gssapi-with-mic-handler-table.diff) a property returning a dict of bound methods
+            for st in c.body:
+                if gss_types is None and isinstance(st, ast.FunctionDef) and st.name == "_handler_table":
+                    rets = [x for x in ast.walk(st) if isinstance(x, ast.Return)]
+                    if len(rets) == 1 and isinstance(rets[0].value, ast.Dict):
+                        gss_types = _dict_keys(rets[0].value, env, "GssapiWithMicAuthHandler._handler_table")
     if gss_types is None:
-        raise Abort("GssapiWithMicAuthHandler.__handler_table not found")
+        raise Abort("GssapiWithMicAuthHandler handler table not found")
 
     # ---- transport.py
     ttree = ast.parse(open(os.path.join(repo, "paramiko", "transport.py")).read())
